@@ -54,6 +54,13 @@ pub enum Call {
     Extra(usize, i32),
 }
 
+impl Lib {
+    /// number of methods the library's trait has besides `desc` (0..=4)
+    pub fn trait_method_count(&self) -> usize {
+        ((self.c + self.d).rem_euclid(5)) as usize
+    }
+}
+
 #[derive(Clone, Debug)]
 pub struct Project {
     pub libs: Vec<Lib>,
@@ -291,22 +298,37 @@ impl Project {
             items.push("fn unwrap[T](o: Opt[T], d: T) -> T { match o { Opt::Some(v) => v, Opt::None => d } }".to_string());
         }
         if l.has_trait {
+            // besides `desc` the trait has (c + d) % 5 further methods (derived from the library's constants, so no
+            // extra random draw): impls with several methods are where the ORDER of an impl's method table can leak
+            // into interfaces and cores (added after a seeded change that rebuilt it from a HashSet)
+            let more = |who: &str, lib: &Lib| -> String {
+                let mut s = String::new();
+                for k in 0..lib.trait_method_count() {
+                    s.push_str(&match who {
+                        "decl" => format!(" fn m{}(Self) -> int32;", k),
+                        "S" => format!(" fn m{}(self: S) -> int32 {{ self.v + {} }}", k, k),
+                        "int32" => format!(" fn m{}(self: int32) -> int32 {{ self + {} }}", k, k),
+                        _ => format!(" fn m{}(self: bool) -> int32 {{ {} }}", k, k),
+                    });
+                }
+                s
+            };
             let tm = if l.extra_trait_method { " fn extra_m(Self) -> int32;" } else { "" };
             let tmi_s = if l.extra_trait_method { " fn extra_m(self: S) -> int32 { self.v }" } else { "" };
             let tmi_i = if l.extra_trait_method { " fn extra_m(self: int32) -> int32 { self }" } else { "" };
-            items.push(format!("trait T {{ fn desc(Self) -> string;{} }}", tm));
+            items.push(format!("trait T {{ fn desc(Self) -> string;{}{} }}", more("decl", l), tm));
             items.push(format!(
-                "impl T for S {{ fn desc(self: S) -> string {{ \"{}S(\" + int32_to_string(self.v) + \")\" }}{} }}",
-                l.name, tmi_s
+                "impl T for S {{ fn desc(self: S) -> string {{ \"{}S(\" + int32_to_string(self.v) + \")\" }}{}{} }}",
+                l.name, more("S", l), tmi_s
             ));
             items.push(format!(
-                "impl T for int32 {{ fn desc(self: int32) -> string {{ \"{}I(\" + int32_to_string(self) + \")\" }}{} }}",
-                l.name, tmi_i
+                "impl T for int32 {{ fn desc(self: int32) -> string {{ \"{}I(\" + int32_to_string(self) + \")\" }}{}{} }}",
+                l.name, more("int32", l), tmi_i
             ));
             items.push("fn show[X: T](x: X) -> string { \"<\" + T::desc(x) + \">\" }".to_string());
             if l.extra_impl {
                 let tmi_b = if l.extra_trait_method { " fn extra_m(self: bool) -> int32 { 0 }" } else { "" };
-                items.push(format!("impl T for bool {{ fn desc(self: bool) -> string {{ \"b\" }}{} }}", tmi_b));
+                items.push(format!("impl T for bool {{ fn desc(self: bool) -> string {{ \"b\" }}{}{} }}", more("bool", l), tmi_b));
             }
         }
         for &j in &l.cross {
@@ -316,9 +338,13 @@ impl Project {
         for &j in &l.foreign_impl {
             let jl = &self.libs[j];
             let tmi = if jl.extra_trait_method { " fn extra_m(self: S) -> int32 { self.w }" } else { "" };
+            let mut more_f = String::new();
+            for k in 0..jl.trait_method_count() {
+                more_f.push_str(&format!(" fn m{}(self: S) -> int32 {{ self.v + {} }}", k, k));
+            }
             items.push(format!(
-                "impl {}::T for S {{ fn desc(self: S) -> string {{ \"{}via{}(\" + int32_to_string(self.v) + \")\" }}{} }}",
-                jl.name, l.name, jl.name, tmi
+                "impl {}::T for S {{ fn desc(self: S) -> string {{ \"{}via{}(\" + int32_to_string(self.v) + \")\" }}{}{} }}",
+                jl.name, l.name, jl.name, more_f, tmi
             ));
         }
         if l.extra_fn {
